@@ -209,6 +209,16 @@ def build(rec, nrep, ngen, loginit, lrep0, via_initop, rng):
     tmax = rng.choice([ngen, 20, 3])
     if via_initop:
         prog = RecurrentSelectionBreedingProgram(IO(), PS(), MO(), EO(), SO(), tmax)
+    elif rng.random() < 0.3:
+        # the programme is constructed WITHOUT a start state and the start is installed through the start_* properties afterwards: it is
+        # then initialised, and evolve() must use the installed start (the initialisation operator, which would hand out something
+        # else, is not to be asked)
+        class IO2(InitializationOperator):
+            def initialize(self, **kw):
+                return tuple({"main": Box([-5, -5, -5]), "aux": Box([-1 - i])} for i in range(5))
+        prog = RecurrentSelectionBreedingProgram(IO2(), PS(), MO(), EO(), SO(), tmax)
+        for nm_, st_ in zip(("start_genome", "start_geno", "start_pheno", "start_bval", "start_gmod"), starts):
+            setattr(prog, nm_, st_)
     else:
         prog = RecurrentSelectionBreedingProgram(IO(), PS(), MO(), EO(), SO(), tmax, *starts)
     return prog, lb, starts, tmax
